@@ -1,6 +1,8 @@
 package rules
 
 import (
+	"go/ast"
+	"go/types"
 	"strings"
 
 	"verif/checker/core"
@@ -32,4 +34,185 @@ func init() {
 			}
 			r.Check(n >= 15, rule, "authorizer", "methods:count", "-", "wrapper methods that filter their result found")
 		})
+}
+
+// helperCheck summarises a call of a checking helper: a function or method of
+// the module (or a local function literal bound once) that
+//   - returns an error as its last result,
+//   - makes no delegate call (it only checks), and
+//   - has every success exit behind the nil-branch of a check.
+//
+// If all success exits lie behind write-class (or IsAllowed*) checks the call
+// is itself a write-class check; if they lie behind checks of any class it is
+// a read-class check. So `if err := s.authorizeX(ctx, a); err != nil` gates
+// exactly like the checks it was extracted from. The resource-type constants
+// the helper checks are returned too. depth bounds helper-in-helper nesting.
+func (c *c29ctx) helperCheck(w *wrapperT, g *core.Graph, info *types.Info, cl *ast.CallExpr, depth int) (int, map[string]bool) {
+	if depth <= 0 {
+		return ckNone, nil
+	}
+	var hg *core.Graph
+	if id, ok := ast.Unparen(cl.Fun).(*ast.Ident); ok && g.Fn != nil {
+		if v, isVar := core.ObjOf(info, id).(*types.Var); isVar {
+			if lit := core.LocalLit(info, g.Fn.Decl.Body, v); lit != nil {
+				hg = g.Fn.GraphOf(lit)
+			}
+		}
+	}
+	if hg == nil {
+		callee := core.Callee(info, cl)
+		fn := c.p.FuncOf(callee)
+		if fn == nil || fn.Decl.Body == nil || fn == g.Fn {
+			return ckNone, nil
+		}
+		if pk := core.Short(fn.Pkg.PkgPath); pk != authzPkg && pk != authnPkg {
+			return ckNone, nil
+		}
+		if w != nil && w.byObj[callee] != nil && w.ifaceMethod[callee.Name()] {
+			return ckNone, nil // a service method, not a checking helper
+		}
+		hg = fn.Graph()
+	}
+	if hg == nil || hg == g || hg.Sig == nil || hg.Sig.Results().Len() == 0 ||
+		!core.IsErrorType(hg.Sig.Results().At(hg.Sig.Results().Len()-1).Type()) {
+		return ckNone, nil
+	}
+	if v, ok := c.helperMemo[hg]; ok {
+		return v.kind, v.rts
+	}
+	if c.helperMemo == nil {
+		c.helperMemo = map[*core.Graph]helperSum{}
+	}
+	c.helperMemo[hg] = helperSum{kind: ckNone} // cycle guard
+	hinfo := hg.Info
+	var strong, any []*core.Edge
+	fwdStrong, fwdAny := map[*core.Node]bool{}, map[*core.Node]bool{}
+	rts := map[string]bool{}
+	for _, nd := range hg.Nodes {
+		if nd.N == nil {
+			continue
+		}
+		// no delegate calls, no nested function literals doing work
+		pure := true
+		core.Walk(nd.N, core.WalkOpts{IntoDefer: true}, func(y ast.Node) bool {
+			if cc, isCall := y.(*ast.CallExpr); isCall && w != nil {
+				if _, isDel := w.delegateCall(hinfo, cc); isDel {
+					pure = false
+				}
+			}
+			return true
+		})
+		if !pure {
+			return ckNone, nil
+		}
+		as, ok := nd.N.(*ast.AssignStmt)
+		if !ok || len(as.Rhs) != 1 {
+			continue
+		}
+		cc, ok := ast.Unparen(as.Rhs[0]).(*ast.CallExpr)
+		if !ok {
+			continue
+		}
+		k := c.classify(nil, hinfo, cc)
+		var sub map[string]bool
+		if k == ckNone {
+			k, sub = c.helperCheck(w, hg, hinfo, cc, depth-1)
+		}
+		if k != ckRead && k != ckWrite && k != ckGeneric {
+			continue
+		}
+		gt, ok := hg.GateOf(nd, c.transformer())
+		if !ok {
+			// `_, _, err := Check(…); return err`: the verdict itself is the result
+			if x := forwardedBy(hg, nd); x != nil {
+				fwdAny[x] = true
+				if k != ckRead {
+					fwdStrong[x] = true
+				}
+				for _, a := range cc.Args {
+					if kc := core.ConstOf(hinfo, a); kc != nil && namedIs(kc.Type(), ".", "ResourceType") {
+						rts[kc.Name()] = true
+					}
+				}
+				for rt := range sub {
+					rts[rt] = true
+				}
+			}
+			continue
+		}
+		for _, a := range cc.Args {
+			if kc := core.ConstOf(hinfo, a); kc != nil && namedIs(kc.Type(), ".", "ResourceType") {
+				rts[kc.Name()] = true
+			}
+		}
+		for rt := range sub {
+			rts[rt] = true
+		}
+		any = append(any, gt.Succ)
+		if k != ckRead {
+			strong = append(strong, gt.Succ)
+		}
+	}
+	exits := hg.SuccessExits()
+	if len(any)+len(fwdAny) == 0 || len(exits) == 0 {
+		return ckNone, nil
+	}
+	behind := func(es []*core.Edge, fwd map[*core.Node]bool) bool {
+		if len(es)+len(fwd) == 0 {
+			return false
+		}
+		reach := hg.ReachFromEntry(nil, core.WithoutEdges(es))
+		for _, x := range exits {
+			if reach[x] && !fwd[x] {
+				return false
+			}
+		}
+		return true
+	}
+	kind := ckNone
+	switch {
+	case behind(strong, fwdStrong):
+		kind = ckWrite
+	case behind(any, fwdAny):
+		kind = ckRead
+	}
+	if kind == ckNone {
+		return ckNone, nil
+	}
+	c.helperMemo[hg] = helperSum{kind: kind, rts: rts}
+	return kind, rts
+}
+
+type helperSum struct {
+	kind int
+	rts  map[string]bool
+}
+
+// forwardedBy: the error assigned at node n is returned unchanged as the last
+// result by the return statement that follows n in straight line (nil otherwise).
+func forwardedBy(g *core.Graph, n *core.Node) *core.Node {
+	ev := g.ErrVarOf(n)
+	if ev == nil {
+		return nil
+	}
+	cur := n
+	for steps := 0; steps < 6; steps++ {
+		if len(cur.Succ) != 1 {
+			return nil
+		}
+		cur = cur.Succ[0].To
+		if cur.N == nil {
+			continue
+		}
+		if rs, ok := cur.N.(*ast.ReturnStmt); ok {
+			if len(rs.Results) >= 1 && core.ObjOf(g.Info, rs.Results[len(rs.Results)-1]) == ev {
+				return cur
+			}
+			return nil
+		}
+		if _, wr := nodeWrites(g.Info, cur.N, ev); wr {
+			return nil
+		}
+	}
+	return nil
 }
